@@ -43,10 +43,17 @@ class StartStagePlannerMixin:
             ancestor_outputs.update(apply_output_reducers(reducers, branch_outputs))
 
         merged = ancestor_outputs
+        # Keys this stage inherited from its ancestors when it was planned
+        # before (a jump re-armed it): they are not the stage's own values, so
+        # the ancestors' outputs of the current iteration replace them.
+        inherited_before = set(stage.context.get("_inherited_keys") or ())
+        ancestor_keys = set(merged)
         for key, value in stage.context.items():
             if key in reducers:
                 # A reducer produced the authoritative value for this key;
                 # do not let the join stage's own context override it.
+                continue
+            if key in inherited_before and key in ancestor_keys:
                 continue
             if key in merged and isinstance(merged[key], list) and isinstance(value, list):
                 # Concatenate lists, avoiding duplicates
@@ -57,6 +64,9 @@ class StartStagePlannerMixin:
             else:
                 merged[key] = value
 
+        inherited = sorted(k for k in ancestor_keys if k not in stage.context or k in inherited_before)
+        if inherited or inherited_before:
+            merged["_inherited_keys"] = inherited
         stage.context = merged
 
         # Get builder
